@@ -362,6 +362,12 @@ def minimize_oc(function, variables, objective: Signal,
 
         # Do OC update
         l1, l2 = l1init, l2init
+        # Enlarge the multiplier interval until it brackets the volume constraint (needed for large sensitivities)
+        lower, upper = np.maximum(xmin, xval-move), np.minimum(xmax, xval+move)
+        xnew = np.clip(xval * np.sqrt(-dfdx / l2), lower, upper)
+        while np.sum(xnew) - maxvol > 0 and np.any(xnew > lower) and l2 < 1e300:
+            l2 *= 10
+            xnew = np.clip(xval * np.sqrt(-dfdx / l2), lower, upper)
         while l2 - l1 > l1l2tol:
             lmid = 0.5 * (l1 + l2)
             xnew = np.clip(xval * np.sqrt(-dfdx / lmid), np.maximum(xmin, xval-move), np.minimum(xmax, xval+move))
